@@ -348,6 +348,18 @@ def main():
                     lines.append("\t".join(cols))
                 synth = "\n".join(v.meta + ["#" + "\t".join(v.columns)] + lines) + "\n"
                 inputs.append(("synthetic-refmasked:" + fn, synth, args))
+                # ... and as assemble prints a target whose SNVs no read covers: no haplotype reaches the threshold, the
+                # reference is masked and nothing is listed (REFMASKED, ALT '.', FILTER NOA): no usable allele at all
+                lines = []
+                for r in v.records:
+                    cols = r.line.split("\t")
+                    cols[4] = "."
+                    cols[6] = "NOA"
+                    if "REFMASKED" not in r.info:
+                        cols[7] = "REFMASKED;" + cols[7]
+                    lines.append("\t".join(cols))
+                synth = "\n".join(v.meta + ["#" + "\t".join(v.columns)] + lines) + "\n"
+                inputs.append(("synthetic-noa:" + fn, synth, args))
     # (c) fresh assemble runs
     base = ["--targets", "@simple.bed.gz", "--variants", "@simple.vcf.gz", "--reference", "@simple.fasta",
             "--mcmc-steps", "300", "--mcmc-burn", "100"]
